@@ -90,6 +90,16 @@ func genIncludeNegative(t *rapid.T) c08NegProject {
 		p.Files["root.jst"] = "JSIGHT 0.3\n" + pad + body + "INCLUDE adir\n"
 		return c08NegProject{Project: p, Reason: "target is a directory", File: "root.jst", Line: strings.Count(p.Files["root.jst"], "\n")}
 	case "jsight-in-included":
+		if rapid.IntRange(0, 2).Draw(t, "rootStartsWithInclude") == 0 {
+			// the root file starts with INCLUDE: JSIGHT is the first directive of the project, but in an included file
+			depth := rapid.IntRange(1, 3).Draw(t, "depth")
+			p.Files["root.jst"] = pad + "INCLUDE i1.jst\n" + body
+			for i := 1; i < depth; i++ {
+				p.Files[fmt.Sprintf("i%d.jst", i)] = fmt.Sprintf("INCLUDE i%d.jst\n", i+1)
+			}
+			p.Files[fmt.Sprintf("i%d.jst", depth)] = "JSIGHT 0.3\n"
+			return c08NegProject{Project: p, Reason: "JSIGHT in an included file", File: fmt.Sprintf("i%d.jst", depth), Line: 1}
+		}
 		p.Files["root.jst"] = "JSIGHT 0.3\n" + pad + "INCLUDE inc.jst\n"
 		first := rapid.Bool().Draw(t, "first")
 		if first {
